@@ -279,7 +279,7 @@ for _k, _v in ADD_TEXT_R8.items():
 
 
 ADD_TEXT_R9 = {
-    "C01": " Generic to all matcher-side checks: for one call in eight a twin matcher with both full-match flags flipped is constructed between constructing the matcher and asking it.",
+    "C01": " Generic to all checks that write rule documents (DESIGN 2.4): for one call in eight a twin matcher with both full-match flags flipped is constructed between constructing the matcher and asking it; one rule document in three has its hexadecimal strings unquoted (F52).",
     "C02": " Class capture-user-range: ranged items / groups / register-family occurrences that use a capture, ranges of width 1-3 and 63-90, runs at min-1 .. max+1 and max+min (F47); relation operand-plain: times beside a plain operand (F48).",
     "C04": " The operand-level $not also as a child of operand-level $and / $or / $and_any_order.",
     "C05": " Form ranged-user-after-rebinding (item, $and / $or group, $not, $not around a ranged group - all using a capture whose definition sits between optional items, F47); capture names that look like a family (&framereg-old.64 / .32); capture names spelled through a string macro.",
@@ -294,7 +294,7 @@ ADD_TEXT_R9 = {
     "C14": " Pool operations that register captures and then fail to compile; NNh literals under both operands-full-match settings.",
     "C15": " Object files under names with blanks, quotes, backslashes; section names with a blank / quote.",
     "C16": " PLT stub names (<puts@plt>) in annotations under the range rule.",
-    "C17": " Faults yaml-second-document, times-bool-* / times-boolbounds-* (F50), macro-use-label-misspelt / -argument-missing / -operand-list-under-list-macro (F49); path faults also after a successful load of the same path in the same process.",
+    "C17": " Faults yaml-second-document, times-bool-* / times-boolbounds-* (F50), macro-use-label-misspelt / -argument-missing / -operand-list-under-list-macro (F49); path faults also after a successful load of the same path in the same process; unquoted 0x bounds of a range may be read as written (F52).",
     "C19": " Lost-reference family: seven shapes (operand list under a list macro, sibling key, inner key, beside another invocation, unused formal, beside a string macro with times, surplus list elements) x undefined / begins-like-defined / defined x four definition orders (F45, F46); an ill-named twin of a well-named definition.",
     "C20": " The binary under the bare name of a program on PATH; the INFO log file that cannot be opened (the command fails or reports once).",
 }
